@@ -24,7 +24,7 @@ fn main() {
     let args: Vec<String> = std::env::args().collect();
     let sub = args.get(1).map(|s| s.as_str()).unwrap_or("");
     std::panic::set_hook(Box::new(|_| {}));
-    if sub == "stress" || sub == "teardown" {
+    if sub == "stress" || sub == "teardown" || sub == "spawnids" {
         tracing::subscriber::set_global_default(stress::StressCapture).expect("subscriber");
     } else {
         let cap = log::Capture::new(vec![std::any::type_name::<scripted::Msg>()], false);
@@ -93,6 +93,13 @@ fn main() {
             let out = arg(&args, "--out").expect("--out");
             let (asks, hung, written) = stress::run_teardown(iters, seed, &out, feats(), sample);
             println!("teardown: iterations={iters} asks={asks} runs_with_pending={hung} runs_written={written}");
+        }
+        "spawnids" => {
+            let threads: usize = arg(&args, "--threads").and_then(|s| s.parse().ok()).unwrap_or(16);
+            let per: usize = arg(&args, "--per").and_then(|s| s.parse().ok()).unwrap_or(1000);
+            let out = arg(&args, "--out").expect("--out");
+            let n = stress::run_spawnids(threads, per, &out);
+            println!("spawnids: {n}");
         }
         "laws" => {
             let inp = arg(&args, "--in").expect("--in");
